@@ -18,8 +18,6 @@ import (
 	"math/rand"
 	"os"
 	"runtime"
-	"sort"
-	"strings"
 	"sync"
 	"sync/atomic"
 	"time"
@@ -185,17 +183,22 @@ func wideCase(rng *rand.Rand, mode string) *caseDesc {
 var judgedCore atomic.Int64
 
 func quiesce(where string) bool {
-	left := leak.WaitNone([]string{fwdFrames}, nil, 30*time.Second)
+	bound := 30 * time.Second
+	if abortRun.Load() {
+		bound = 3 * time.Second
+	}
+	left := leak.WaitNone([]string{fwdFrames}, nil, bound)
 	rep.Count("quiescent_points_checked_for_helper_goroutines", 1)
 	if len(left) == 0 {
 		return true
 	}
 	noteViolation()
+	abortRun.Store(true)
 	fps := map[string]int{}
 	for _, g := range left {
 		fps[leak.Fingerprint(g)]++
 	}
-	rep.Violation("helper-goroutines-remain", fmt.Sprintf("%d goroutine(s) of the forward package still alive 30 s after every queried upstream had returned (%s)", len(left), where),
+	rep.Violation("helper-goroutines-remain", fmt.Sprintf("%d goroutine(s) of the forward package still alive %v after every queried upstream had returned (%s)", len(left), bound, where),
 		map[string]any{"kind": "leak", "where": where, "goroutines": len(left), "first": left[0].Text, "distinct_stacks": len(fps)})
 	return false
 }
@@ -213,7 +216,7 @@ func finalizeAll(runs []*caseRun, quiet bool) {
 
 // runPool runs cases with par of them in flight, then waits for quiescence.
 func runPool(phase string, cases []*caseDesc, par int) {
-	if len(cases) == 0 {
+	if len(cases) == 0 || abortRun.Load() {
 		return
 	}
 	caselog.Log(map[string]any{"phase": phase, "cases": len(cases), "first": cases[0], "seed": rep.Seed})
@@ -225,6 +228,10 @@ func runPool(phase string, cases []*caseDesc, par int) {
 		go func() {
 			defer wg.Done()
 			for i := range ch {
+				if abortRun.Load() {
+					rep.Count("cases_skipped_after_goroutine_leak", 1)
+					continue
+				}
 				runs[i] = runCase(cases[i], nil, nil)
 			}
 		}()
@@ -293,6 +300,9 @@ func startDistribution() {
 		}
 	}
 	for _, cf := range cfgs {
+		if abortRun.Load() {
+			return
+		}
 		calls := 120 * cf.L
 		if calls < 300 {
 			calls = 300
@@ -472,20 +482,23 @@ func main() {
 		}
 	}
 	coreN := len(ordered)
-	for i := 0; i < rep.Pick(2000, 9000); i++ {
+	for i := 0; i < rep.Pick(2000, 20000); i++ {
 		ordered = append(ordered, wideCase(rng, "ordered"))
 	}
 	runOrdered("ordered", ordered)
 
 	var storm []*caseDesc
-	for i := 0; i < rep.Pick(800, 8000); i++ {
+	for i := 0; i < rep.Pick(800, 20000); i++ {
 		storm = append(storm, wideCase(rng, "storm"))
 	}
-	for _, procs := range []int{16, 2, 1} {
+	third := len(storm) / 3
+	for i, procs := range []int{16, 2, 1} {
 		runtime.GOMAXPROCS(procs)
-		k := len(storm) / 3
-		runPool(fmt.Sprintf("storm-procs%d", procs), storm[:k], 16)
-		storm = storm[k:]
+		part := storm[i*third : (i+1)*third]
+		if i == 2 {
+			part = storm[i*third:]
+		}
+		runPool(fmt.Sprintf("storm-procs%d", procs), part, 16)
 	}
 	runtime.GOMAXPROCS(16)
 
@@ -523,7 +536,5 @@ func main() {
 	if judged*10 < int64(len(ordered))*9 && !fastFail.Load() {
 		rep.Inconclusive("only %d of %d ordered cases could be judged", judged, len(ordered))
 	}
-	_ = sort.Strings
-	_ = strings.Join
 	rep.Finish()
 }
